@@ -71,6 +71,11 @@ func Overlay(files []HarnessFile) (map[string][]byte, error) {
 		return nil, err
 	}
 	ov[filepath.Join(RepoDir, "go/internal/vh/vh.go")] = b
+	b2, err := os.ReadFile(filepath.Join(HarnessDir, "vhc", "vhc.go"))
+	if err != nil {
+		return nil, err
+	}
+	ov[filepath.Join(RepoDir, "go/internal/vhc/vhc.go")] = b2
 	for _, f := range files {
 		if strings.HasSuffix(f.Src, "_test.go") {
 			continue
